@@ -40,6 +40,10 @@ UNITS['mtag_feature_gate'] = dict(file=DA, locator=FD, classes=CL + ['MultiTag',
 UNITS['mtag_untagged_whole'] = dict(file=DA, locator=FD, classes=CL,
     region=dict(start=r'NDSize\s+offset\(data\.dataExtent\(\)\.size\(\),\s*0\);\s*DataView\s+io\s*=\s*DataView\(data,\s*data\.dataExtent\(\)', end=r'views\.push_back\(io\);(?=\s*\}\s*\}\s*return\s+views)',
                 params=[('const DataArray &', 'data'), ('vec_DataView &', 'views')]))
+UNITS['mtag_index_gate'] = dict(file=DA, locator=r'void\s+getOffsetAndCount\s*\((?=\s*const\s+MultiTag\s*&\s*tag\s*,\s*const\s+DataArray\s*&\s*array\s*,\s*const\s+vector)', classes=CL,
+    # starts at the statement before the gate so that a guard for the empty list is part of the region
+    region=dict(start=r'if\s*\(\s*extents\s*\)\s*\{\s*extent_size\s*=', end=r'(?=size_t\s+dimcount_sizet\s*=)',
+                params=[('const std::vector<ndsize_t> &', 'indices'), ('const DataArray &', 'positions'), ('const DataArray &', 'extents'), ('NDSize &', 'extent_size')]))
 EXTRA = ('size_t gh_max_idx; int gh_mtagged_calls;\n' + 'opt_ndsize gh_ge; opt_pair gh_pair; double gh_pair_start, gh_pair_end; RangeMatch gh_pair_match; int gh_pair_calls; int gh_pushed;\nint gh_views; size_t gh_view_count_rank, gh_view_offset_rank; ndsize_t gh_view_count_k, gh_view_offset_k; const ndsize_t *gh_view_extent_dims;\n'
          'int gh_tagged_calls, gh_backend_feature_gets, gh_backend_reference_gets; ndsize_t gh_backend_get_index;\n')
 ACC = ['NDSize_size', 'NDSize_at', 'NDSize_bool', 'NDSize_allocate', 'NDSize_fill', 'NDSize_ctor_fill', 'NDSize_copy_ctor']
@@ -51,6 +55,8 @@ for j in rank_cases(dict(name='mtag_indexed_slice', bodies=ACC + ['mtag_indexed_
     j['tiers'] = ('quick', 'thorough') if r <= 3 else ('thorough',)
     JOBS.append(j)
 JOBS.append(dict(name='mtag_feature_gate', bodies=['NDSize_size', 'NDSize_at', 'mtag_feature_gate'], enforce=['mtag_feature_gate'], replace=['std_max_element_idx'], extra_c=EXTRA,
+                 defines=['NIX_TMP_LITERAL'], cbmc_flags=UNW, expect_kinds=['postcondition'], timeout=900))
+JOBS.append(dict(name='mtag_index_gate', bodies=['NDSize_size', 'NDSize_at', 'mtag_index_gate'], enforce=['mtag_index_gate'], replace=['std_max_element_idx'], extra_c=EXTRA,
                  defines=['NIX_TMP_LITERAL'], cbmc_flags=UNW, expect_kinds=['postcondition'], timeout=900))
 for j in rank_cases(dict(name='mtag_untagged_whole', bodies=ACC + ['mtag_untagged_whole'], enforce=['mtag_untagged_whole'], replace=['mk_DataView_3'], extra_c=EXTRA,
                          cbmc_flags=UNW, expect_kinds=['postcondition'], timeout=900)):
